@@ -15,32 +15,38 @@
 
    Events, in the order the code performs them (one critical section or one channel operation
    each; any event of any other goroutine may happen between two of them):
-     Begin p      lock; id := table.id; table.id++ (uint16 wrap); table[id] = &msg (NO collision
-                  check: an existing entry with this id is overwritten); unlock.  The waiter is in
-                  the table BEFORE the request is sent.
+     Begin p      icmpRegister: lock; if all 65536 identifiers are in the table: unlock and return an
+                  error (the call never registers).  Otherwise id := table.id; table.id++ (uint16
+                  wrap), repeated while table[id] exists (identifiers still waited for are skipped,
+                  /repo since the wrap repair); table[id] = &msg; unlock.  The waiter is in the
+                  table BEFORE the request is sent.
      Sent p ok    the send returned.  ok=true: the call enters its select.  ok=false: the send
                   returned an error (invalid address family, Conn.WriteTo failed); the call does
-                  lock; delete(table, id); unlock and returns the error ([fix24 = true], /repo since
-                  659869d; [fix24 = false] is the code before: the entry is not removed).
+                  lock; if table[id] == &msg { delete(table, id) }; unlock and returns the error
+                  ([fix24 = true], /repo since 659869d; [fix24 = false] is the code before: the entry
+                  is not removed).
      BulkFail n   n complete calls whose send fails, back to back (each: Begin; Sent false), without
-                  recording them as calls: delete(table, id) for the n identifiers handed out,
-                  table.id += n.  A compressed history (Proofs/PingBulk.v: same table, next-id and
-                  other calls as the n pairs of events); only for the repaired code.
+                  recording them as calls: each takes the next free identifier and gives it back, so
+                  the table is unchanged and table.id moves past n free identifiers.  A compressed
+                  history (Proofs/PingBulk.v: same table, next-id and other calls as the n pairs of
+                  events); only for the repaired code.
      Notify i     Session.Parse reached echoNotify(i): if table[i] exists: msgRecv = true,
                   close(wakeup), delete(table, i) — whatever the owner is doing (also during its send).
      Skip         Session.Parse of a frame that does not reach echoNotify (no access to the table).
      Timeout p    the timer of call p fires (real time enters the model only here).
      End p        the select of call p returns (enabled when wakeup is closed or the timer fired);
-                  lock; delete(table, id); unlock; return nil if msgRecv else ErrTimeout.
+                  lock; if table[id] == &msg { delete(table, id) } (after a reply the entry is gone
+                  and the identifier may belong to a newer call); unlock; return nil if msgRecv else
+                  ErrTimeout.
    Ghost (history) fields, never read by the transitions: [cnt] = number of identifiers handed out
-   so far, [p_seq] = value of [cnt] when the call began. *)
+   so far, [p_seq] = value of [cnt] when the call began (kept for reference only). *)
 From PV Require Import Base.Prelude.
 Open Scope N_scope.
 
 Definition id := N.
 Definition pid := nat.
 
-Inductive result : Set := RNil | RTimeout | RSendErr.
+Inductive result : Set := RNil | RTimeout | RSendErr | RBusy.
 Inductive phase : Set := Sending | Waiting | Returned (r : result).
 
 Record ping := mkPing {
@@ -69,10 +75,29 @@ Definition tdel (t : list (id * pid)) (k : id) : list (id * pid) :=
   filter (fun e => negb (fst e =? k)) t.
 Definition tset (t : list (id * pid)) (k : id) (v : pid) : list (id * pid) := (k, v) :: tdel t k.
 
-(* k is one of the n identifiers a, a+1, ... (mod 2^16) *)
-Definition in_range (k a n : N) : bool := (k + 65536 - a) mod 65536 <? n.
-Definition tdel_range (t : list (id * pid)) (a n : N) : list (id * pid) :=
-  filter (fun e => negb (in_range (fst e) a n)) t.
+(* delete(table, k) only if the entry is the caller's own: if table[k] == &msg *)
+Definition tdel_own (t : list (id * pid)) (k : id) (p : pid) : list (id * pid) :=
+  match tget t k with
+  | Some q => if Nat.eqb q p then tdel t k else t
+  | None => t
+  end.
+
+(* the allocation loop of icmpRegister: the first identifier from nx on (mod 2^16) that is not in
+   the table; the loop is modelled with fuel (Proofs/Ping.v first_free_total: with fewer than 65536
+   entries it ends within length+1 probes, so the fuel below is never exhausted) *)
+Fixpoint first_free (t : list (id * pid)) (nx : id) (fuel : nat) : option id :=
+  match fuel with
+  | O => None
+  | S f => match tget t nx with
+           | None => Some nx
+           | Some _ => first_free t (N.modulo (nx + 1) 65536) f
+           end
+  end.
+Definition table_full (t : list (id * pid)) : bool := 65536 <=? N.of_nat (List.length t).
+Definition alloc (t : list (id * pid)) (nx : id) : option id := first_free t nx (S (List.length t)).
+(* table.id after one call that takes an identifier and gives it back *)
+Definition bump (t : list (id * pid)) (nx : id) : id :=
+  if table_full t then nx else match alloc t nx with Some i => N.modulo (i + 1) 65536 | None => nx end.
 
 (* the calls, by call number *)
 Fixpoint pget (l : list (pid * ping)) (p : pid) : option ping :=
@@ -113,9 +138,15 @@ Definition step (fix24 : bool) (s : state) (e : event) : res state :=
       match pget (pings s) p with
       | Some _ => Err EOther
       | None =>
-          let i := next s in
-          let pg := mkPing i false false false Sending (cnt s) in
-          Ok (mkState (tset (tbl s) i p) (u16 (i + 1)) (pset (pings s) p pg) (cnt s + 1))
+          if table_full (tbl s) then
+            Ok (set_pings s (pset (pings s) p (mkPing (next s) false false false (Returned RBusy) (cnt s))))
+          else
+            match alloc (tbl s) (next s) with
+            | None => Fuel
+            | Some i =>
+                let pg := mkPing i false false false Sending (cnt s) in
+                Ok (mkState (tset (tbl s) i p) (u16 (i + 1)) (pset (pings s) p pg) (cnt s + 1))
+            end
       end
   | Sent p ok =>
       match pget (pings s) p with
@@ -126,7 +157,7 @@ Definition step (fix24 : bool) (s : state) (e : event) : res state :=
                 Ok (set_pings s (pset (pings s) p
                       (mkPing (p_id pg) (p_recv pg) (p_closed pg) (p_fired pg) Waiting (p_seq pg))))
               else
-                Ok (mkState (if fix24 then tdel (tbl s) (p_id pg) else tbl s) (next s)
+                Ok (mkState (if fix24 then tdel_own (tbl s) (p_id pg) p else tbl s) (next s)
                       (pset (pings s) p
                          (mkPing (p_id pg) (p_recv pg) (p_closed pg) (p_fired pg)
                             (Returned RSendErr) (p_seq pg)))
@@ -137,7 +168,7 @@ Definition step (fix24 : bool) (s : state) (e : event) : res state :=
       end
   | BulkFail n =>
       if fix24 && (n <=? 65536) then
-        Ok (mkState (tdel_range (tbl s) (next s) n) (u16 (next s + n)) (pings s) (cnt s + n))
+        Ok (mkState (tbl s) (N.iter n (bump (tbl s)) (next s)) (pings s) (cnt s + n))
       else Err EOther
   | Notify i =>
       (* the early return on an empty table has no effect of its own *)
@@ -171,7 +202,7 @@ Definition step (fix24 : bool) (s : state) (e : event) : res state :=
           match p_phase pg with
           | Waiting =>
               if p_closed pg || p_fired pg then
-                Ok (mkState (tdel (tbl s) (p_id pg)) (next s)
+                Ok (mkState (tdel_own (tbl s) (p_id pg) p) (next s)
                       (pset (pings s) p
                          (mkPing (p_id pg) (p_recv pg) (p_closed pg) (p_fired pg)
                             (Returned (if p_recv pg then RNil else RTimeout)) (p_seq pg)))
